@@ -9,6 +9,7 @@ use crate::entropy::{
 };
 use crate::entropy::rans::{Rans64Encoder, ParallelX1};
 use crate::error::{Result, ZiporaError};
+use std::collections::HashMap;
 
 /// Compression algorithm type for entropy blob store
 #[derive(Debug, Clone, Copy, PartialEq, Eq)]
@@ -79,7 +80,11 @@ pub struct HuffmanBlobStore<S: BlobStore> {
     stats: EntropyCompressionStats,
     training_data: Vec<u8>,
     encoder: Option<HuffmanEncoder>,
-    tree: Option<HuffmanTree>,
+    /// One decoder per tree built so far; `encoder` encodes with the last tree
+    decoders: Vec<HuffmanDecoder>,
+    /// For each record stored Huffman-encoded: the index of its decoder in `decoders` and its
+    /// original length (the encoded bytes alone do not say where the last symbol ends)
+    encoded: HashMap<crate::RecordId, (usize, usize)>,
 }
 
 impl<S: BlobStore> HuffmanBlobStore<S> {
@@ -90,7 +95,8 @@ impl<S: BlobStore> HuffmanBlobStore<S> {
             stats: EntropyCompressionStats::new(EntropyAlgorithm::Huffman),
             training_data: Vec::new(),
             encoder: None,
-            tree: None,
+            decoders: Vec::new(),
+            encoded: HashMap::new(),
         }
     }
 
@@ -108,7 +114,8 @@ impl<S: BlobStore> HuffmanBlobStore<S> {
         let tree = HuffmanTree::from_data(&self.training_data)?;
         let encoder = HuffmanEncoder::new(&self.training_data)?;
 
-        self.tree = Some(tree);
+        // Records already stored keep the tree they were encoded with
+        self.decoders.push(HuffmanDecoder::new(tree));
         self.encoder = Some(encoder);
 
         Ok(())
@@ -117,6 +124,14 @@ impl<S: BlobStore> HuffmanBlobStore<S> {
     /// Get compression statistics
     pub fn compression_stats(&self) -> &EntropyCompressionStats {
         &self.stats
+    }
+
+    /// Store a record as is
+    fn put_uncompressed(&mut self, data: &[u8]) -> Result<crate::RecordId> {
+        let id = self.inner.put(data)?;
+        // the inner store may hand out the id of a removed record again
+        self.encoded.remove(&id);
+        Ok(id)
     }
 
     /// Compress data using Huffman coding
@@ -141,29 +156,30 @@ impl<S: BlobStore> HuffmanBlobStore<S> {
     }
 
     /// Decompress data using Huffman coding
-    #[allow(dead_code)]
-    fn decompress_data(&mut self, compressed: &[u8], original_length: usize) -> Result<Vec<u8>> {
-        let start = std::time::Instant::now();
-
-        let tree = self
-            .tree
-            .as_ref()
+    fn decompress_data(
+        &self,
+        compressed: &[u8],
+        decoder_index: usize,
+        original_length: usize,
+    ) -> Result<Vec<u8>> {
+        let decoder = self
+            .decoders
+            .get(decoder_index)
             .ok_or_else(|| ZiporaError::invalid_data("Huffman tree not built"))?;
 
-        let decoder = HuffmanDecoder::new(tree.clone());
-        let decompressed = decoder.decode(compressed, original_length)?;
-
-        self.stats.decompression_time_us += start.elapsed().as_micros() as u64;
-        self.stats.decompressions += 1;
-
-        Ok(decompressed)
+        decoder.decode(compressed, original_length)
     }
 }
 
 impl<S: BlobStore> BlobStore for HuffmanBlobStore<S> {
     fn get(&self, id: crate::RecordId) -> Result<Vec<u8>> {
-        // For now, delegate to inner store (would need metadata for decompression)
-        self.inner.get(id)
+        let stored = self.inner.get(id)?;
+        match self.encoded.get(&id) {
+            Some(&(decoder_index, original_length)) => {
+                self.decompress_data(&stored, decoder_index, original_length)
+            }
+            None => Ok(stored),
+        }
     }
 
     fn put(&mut self, data: &[u8]) -> Result<crate::RecordId> {
@@ -171,21 +187,24 @@ impl<S: BlobStore> BlobStore for HuffmanBlobStore<S> {
             match self.compress_data(data) {
                 Ok(compressed) => {
                     let id = self.inner.put(&compressed)?;
+                    self.encoded.insert(id, (self.decoders.len() - 1, data.len()));
                     self.stats.blob_stats.put_count += 1;
                     Ok(id)
                 }
                 Err(_) => {
                     // Fall back to uncompressed
-                    self.inner.put(data)
+                    self.put_uncompressed(data)
                 }
             }
         } else {
-            self.inner.put(data)
+            self.put_uncompressed(data)
         }
     }
 
     fn remove(&mut self, id: crate::RecordId) -> Result<()> {
-        self.inner.remove(id)
+        self.inner.remove(id)?;
+        self.encoded.remove(&id);
+        Ok(())
     }
 
     fn contains(&self, id: crate::RecordId) -> bool {
@@ -193,7 +212,10 @@ impl<S: BlobStore> BlobStore for HuffmanBlobStore<S> {
     }
 
     fn size(&self, id: crate::RecordId) -> Result<Option<usize>> {
-        self.inner.size(id)
+        match (self.inner.size(id)?, self.encoded.get(&id)) {
+            (Some(_), Some(&(_, original_length))) => Ok(Some(original_length)),
+            (size, _) => Ok(size),
+        }
     }
 
     fn len(&self) -> usize {
